@@ -24,7 +24,7 @@ def build_objects(init):
         import math
         import numpy
 
-        t0 = init["cond"]["T"]
+        t0 = init["cond"]["T"] + prog.get("offset", 0.0)  # a programme need not start at the stated initial temperature
         r = prog["rate"]  # K per hour, small: the programme stays near the initial temperature over the few hours modelled
         if prog["type"] == "polynomial":
             co = [t0, r, -0.05 * r]
